@@ -77,7 +77,8 @@ def r2_r3(F, rep):
     for c in X.calls(f):
         if c["k"] == "CXXMemberCallExpr" and X.callee_name(c) == "copy_grid":
             r = X.key(X.receiver(c), f)
-            if "last_" in r:
+            # the snapshot is taken of the combined grid itself (the one the next delta is measured against)
+            if "last_" in r and X.call_args(c) and ("this.%s)" % r[r.index("last_") + 5:].rstrip(")")) in X.key(X.call_args(c)[0], f):
                 snaps[r] = c
     muts = [c for c in X.calls(f) if c["k"] == "CXXMemberCallExpr" and X.callee_name(c) in ("add_grid", "raw_data_in")
             and X.key(X.receiver(c), f) in ("op->(this.gradients)", "op->(this.samples)")]
@@ -133,11 +134,11 @@ def r2_r3(F, rep):
                 from .rules_c03 import structural_guards
                 extra = [X.re_strip(X.key(cn, g)) for cn, pol in structural_guards(g, c)
                          if cn is not None and X.re_strip(X.key(cn, g)) not in ("this.shared_on",)]
-                if ("true", "this.shared_on") in facts and not extra and want in src and "last_" not in src and all(g.cfg.can_reach(l, c) for l in loads):
+                if ("true", "this.shared_on") in facts and not extra and ("this.%s)" % want) in src and all(g.cfg.can_reach(l, c) for l in loads):
                     got.add(X.key(X.receiver(c), g))
         tag = g.name if not g.params else "%s|%s" % (g.name, g.typestr(g.params[0]["t"])[:24])
         rep.add("C14-R2", "load|%s" % tag, g.loc(loads[0]),
-                "%s loads gradients/samples from outside (%d read call(s)); in shared mode (and under no narrower condition) it then refreshes %s" % (g.q, len(loads), sorted(got) or "NOTHING"),
+                "%s loads gradients/samples from outside (%d read call(s)); in shared mode (and under no narrower condition) it then copies the loaded grids themselves into %s" % (g.q, len(loads), sorted(got) or "NOTHING"),
                 len(got) == 2, detail="data loaded but not recorded in last_gradients / last_samples is sent to every peer as a new increment: "
                                       "the combined grids hold it once per walker", func=g.q)
     if nload < 3:
